@@ -566,8 +566,7 @@ func (w *world) examineFrame(c *simConn, d *dirState, idx int, f *frameInfo) {
 			return
 		}
 		if o.onWire {
-			r.Fail("frame-mismatch", fmt.Sprintf("c%d c2s frame#%d: %s was put on the wire twice", c.id, idx, o.tag), nil)
-			return
+			r.Probe("request_on_wire_twice") // a retransmission is not forbidden by the statement
 		}
 		o.onWire = true
 		o.conn = c
@@ -1400,13 +1399,6 @@ func (w *world) startOp() {
 			err = w.client.Notify(ctx, serverNode, o.shard, o.prio, o.svc, o.payload)
 		}
 	}()
-}
-
-func boolInt(b bool) int {
-	if b {
-		return 1
-	}
-	return 0
 }
 
 // finalPhase: faults stop, everything in flight is delivered and answered
